@@ -88,6 +88,31 @@ pub struct Layout {
     pub empty_block: bool,
 }
 
+/// Bytes that follow the string block in the file (the header describes the table exactly; the
+/// file is longer than header + records + strings). Every parser accepts such a file
+/// (`parse_layout` only asks that the table fits into the file); it is what is left when a table
+/// is saved over an older, larger one in a file opened without truncation, or when a tool pads
+/// files to an alignment.
+#[derive(Clone, Copy, Debug, PartialEq, Eq, Default)]
+pub struct Tail {
+    /// 0 = none, 1 = zero padding up to the next multiple of `len`, 2 = `len` bytes of text-like
+    /// garbage (letters, NULs, bytes that are not UTF-8), 3 = the end of an older table that had
+    /// `len` more rows (and the strings they reference)
+    pub kind: u8,
+    pub len: u16,
+}
+
+impl Tail {
+    pub fn name(&self) -> &'static str {
+        match self.kind {
+            0 => "none",
+            1 => "zero-padding",
+            2 => "garbage",
+            _ => "older-larger-table",
+        }
+    }
+}
+
 /// A fully materialised table. One `i64` per atom, row-major, fields flattened in schema order:
 /// I32/I8/I16 signed value, U32/U8/U16 unsigned value, F32 = raw bits, Bool = 0/1,
 /// Str = index into `pool`.
@@ -100,6 +125,9 @@ pub struct Table {
     pub layout: Layout,
     /// give the schema to `DbcWriter::with_schema` (true) or let it take the record set's (false)
     pub writer_explicit_schema: bool,
+    /// bytes behind the string block (reference file) / what the file held before the table was
+    /// saved into it (rewritten file)
+    pub tail: Tail,
 }
 
 #[derive(Clone, Copy, Debug, PartialEq, Eq)]
@@ -221,6 +249,9 @@ impl Table {
                 return Err("NUL in string".into());
             }
         }
+        if self.tail.kind > 3 || (self.tail.kind != 0 && self.tail.len == 0) {
+            return Err("tail".into());
+        }
         Ok(())
     }
 
@@ -233,6 +264,7 @@ impl Table {
             "rows": self.rows,
             "layout": {"mode": self.layout.mode, "junk": self.layout.junk, "empty_block": self.layout.empty_block},
             "writer_explicit_schema": self.writer_explicit_schema,
+            "tail": {"kind": self.tail.kind, "len": self.tail.len},
         })
     }
 
@@ -277,6 +309,11 @@ impl Table {
                 empty_block: v["layout"]["empty_block"].as_bool().unwrap_or(false),
             },
             writer_explicit_schema: v["writer_explicit_schema"].as_bool().unwrap_or(true),
+            // replay files written before this dimension existed have no tail
+            tail: Tail {
+                kind: v["tail"]["kind"].as_u64().unwrap_or(0) as u8,
+                len: v["tail"]["len"].as_u64().unwrap_or(0) as u16,
+            },
         };
         t.validate()?;
         Ok(t)
@@ -429,6 +466,73 @@ pub fn encode(t: &Table) -> Vec<u8> {
     out
 }
 
+/// The older, larger table of tail kind 3: the same schema, pool and layout, the same rows
+/// followed by `extra` more rows (copies of existing rows whose string atoms point at other pool
+/// entries; a row of zero atoms when the table is empty). It is only a source of bytes / a
+/// history step, it is not judged itself.
+pub fn older_table(t: &Table, extra: usize) -> Table {
+    let am = t.atom_map();
+    let mut o = t.clone();
+    o.tail = Tail::default();
+    let n = t.rows.len();
+    for j in 0..extra.max(1) {
+        let mut row = if n == 0 { vec![0i64; am.len()] } else { t.rows[j % n].clone() };
+        for (a, (_, _, ty)) in am.iter().enumerate() {
+            if *ty == Ty::Str {
+                row[a] = ((row[a] as usize + 1 + j) % t.pool.len()) as i64;
+            }
+        }
+        o.rows.push(row);
+    }
+    o
+}
+
+fn mix(mut z: u64) -> u64 {
+    z = z.wrapping_add(0x9e3779b97f4a7c15);
+    z = (z ^ (z >> 30)).wrapping_mul(0xbf58476d1ce4e5b9);
+    z = (z ^ (z >> 27)).wrapping_mul(0x94d049bb133111eb);
+    z ^ (z >> 31)
+}
+
+/// `len` bytes that look like the inside of some other file: letters, NULs, non-UTF-8 bytes
+pub fn garbage(len: usize, salt: u64) -> Vec<u8> {
+    (0..len)
+        .map(|i| {
+            let h = mix(salt ^ mix(i as u64));
+            match h % 8 {
+                0 => 0u8,
+                1 => 0xFF,
+                2 => 0xC3,
+                _ => b'a' + ((h >> 8) % 26) as u8,
+            }
+        })
+        .collect()
+}
+
+/// Tail kinds 1 and 2 for a file of `base_len` bytes (kind 3 needs the older table, see `reference_tail`)
+pub fn pad_tail(tail: Tail, base_len: usize) -> Vec<u8> {
+    match tail.kind {
+        1 => {
+            let a = tail.len.max(1) as usize;
+            vec![0u8; a - base_len % a]
+        }
+        2 => garbage(tail.len.max(1) as usize, base_len as u64),
+        _ => vec![],
+    }
+}
+
+/// The bytes behind the string block of the reference file `exact` (= `encode(t)`)
+pub fn reference_tail(t: &Table, exact: &[u8]) -> Vec<u8> {
+    match t.tail.kind {
+        0 => vec![],
+        3 => {
+            let old = encode(&older_table(t, t.tail.len as usize));
+            old.get(exact.len()..).map(|x| x.to_vec()).unwrap_or_default()
+        }
+        _ => pad_tail(t.tail, exact.len()),
+    }
+}
+
 pub fn read_header(b: &[u8]) -> Result<Header, String> {
     if b.len() < 20 {
         return Err(format!("{} bytes, shorter than a header", b.len()));
@@ -547,6 +651,7 @@ pub fn self_check() -> Result<(), String> {
         rows: vec![vec![7, 1, 255, 0, -2], vec![9, 0, 3, 1, 5]],
         layout: Layout { mode: 0, junk: false, empty_block: false },
         writer_explicit_schema: true,
+        tail: Tail::default(),
     };
     let want: Vec<u8> = [
         b"WDBC".as_slice(),
@@ -578,6 +683,18 @@ pub fn self_check() -> Result<(), String> {
     let d2 = decode(&b2, &t2.fields)?;
     if d2.block != [0, b'x', b'a', b'b', 0] || d2.rows[0][3] != 1 || d2.rows[1][3] != 2 {
         return Err("suffix-sharing self-check".into());
+    }
+    // bytes behind the string block: zero padding of the 48-byte file to a multiple of 32, and the
+    // end of an older table with one more row (row 0 again, its string atom moved to pool[1] = "")
+    let mut t3 = t.clone();
+    t3.tail = Tail { kind: 1, len: 32 };
+    if reference_tail(&t3, &got) != vec![0u8; 16] {
+        return Err("zero-padding self-check".into());
+    }
+    t3.tail = Tail { kind: 3, len: 1 };
+    let want_tail: Vec<u8> = vec![1, 255, 0, 0, 0, 0, 0xFE, 0xFF, 0, b'a', b'b', 0];
+    if reference_tail(&t3, &got) != want_tail {
+        return Err(format!("older-table tail self-check: {}", hex::encode(reference_tail(&t3, &got))));
     }
     Ok(())
 }
